@@ -436,6 +436,30 @@ func nonMinimal(f wfield) (wfield, bool) {
 	return wfield{f.num, f.typ, append(append([]byte{}, f.raw[:n]...), nv...)}, true
 }
 
+// padVarint re-encodes a varint field with continuation padding up to `width`
+// bytes (same value: protobuf decoders accept over-long varints up to 10 bytes).
+func padVarint(f wfield, width int) (wfield, bool) {
+	if f.typ != protowire.VarintType {
+		return f, false
+	}
+	_, _, n := protowire.ConsumeTag(f.raw)
+	v := f.raw[n:]
+	if len(v) >= width {
+		return f, false
+	}
+	if width == 10 {
+		// the 10th byte carries one payload bit only: values needing bit 63 are
+		// already 10 bytes long; padding with zeros keeps every shorter value
+	}
+	nv := append([]byte{}, v...)
+	nv[len(nv)-1] |= 0x80
+	for len(nv) < width-1 {
+		nv = append(nv, 0x80)
+	}
+	nv = append(nv, 0x00)
+	return wfield{f.num, f.typ, append(append([]byte{}, f.raw[:n]...), nv...)}, true
+}
+
 // deviationsFor lists the single deviations applicable to a field list.
 func deviationsFor(fs []wfield) []deviation {
 	var out []deviation
@@ -486,6 +510,30 @@ func deviationsFor(fs []wfield) []deviation {
 				o = append(o, u)
 				return append(o, fs[pos:]...)
 			}})
+		}
+	}
+	// varints padded to 6 and to the maximal 10 bytes (a decoder that bounds the
+	// encoded width of a field instead of its value rejects these)
+	for i := 0; i < n; i++ {
+		for _, width := range []int{6, 10} {
+			i, width := i, width
+			if width == 10 && fs[i].num != 1 && fs[i].num != 7 {
+				continue // the maximal width on DataType and Mode only (cost)
+			}
+			if _, ok := padVarint(fs[i], width); ok {
+				out = append(out, deviation{fmt.Sprintf("padded%d(%d)", width, i), func(fs []wfield) []wfield {
+					if i >= len(fs) {
+						return nil
+					}
+					nf, ok := padVarint(fs[i], width)
+					if !ok {
+						return nil
+					}
+					o := append([]wfield{}, fs...)
+					o[i] = nf
+					return o
+				}})
+			}
 		}
 	}
 	for i := 0; i < n; i++ {
